@@ -2964,11 +2964,20 @@ class ChannelManager:
             if le_connection_channels.get(channel.destination_cid) is channel:
                 del le_connection_channels[channel.destination_cid]
 
+    @staticmethod
+    def check_connection(connection: Connection) -> None:
+        # A request sent on a connection that is gone would never be answered, and
+        # nothing would cancel it: fail right away instead
+        if connection.device.connections.get(connection.handle) is not connection:
+            raise InvalidStateError('connection is closed')
+
     async def create_le_credit_based_channel(
         self,
         connection: Connection,
         spec: LeCreditBasedChannelSpec,
     ) -> LeCreditBasedChannel:
+        self.check_connection(connection)
+
         # Find a free CID for the new channel
         connection_channels = self.channels.setdefault(connection.handle, {})
         source_cid = self.find_free_le_cid(connection_channels)
@@ -3010,6 +3019,7 @@ class ChannelManager:
         self, connection: Connection, spec: ClassicChannelSpec
     ) -> ClassicChannel:
         # NOTE: this implementation hard-codes BR/EDR
+        self.check_connection(connection)
 
         # Find a free CID for a new channel
         connection_channels = self.channels.setdefault(connection.handle, {})
@@ -3053,6 +3063,8 @@ class ChannelManager:
         spec: LeCreditBasedChannelSpec,
         count: int,
     ) -> list[LeCreditBasedChannel]:
+        self.check_connection(connection)
+
         # Find a free CID for the new channel
         connection_channels = self.channels.setdefault(connection.handle, {})
         source_cids = self.find_free_le_cids(connection_channels, count)
